@@ -551,6 +551,122 @@ def fold_constant_branches(g):
     return n
 
 
+def _pointee_record(x):
+    """record R when the expression x is known to have type `R *` (from the type annotations of variables, member
+    accesses and casts), '' when it is known to be something else, None when the type is not annotated"""
+    while isinstance(x, dict) and x.get('k') in ('load', 'paren'):
+        x = x.get('e')
+    if not isinstance(x, dict):
+        return None
+    k = x.get('k')
+    if k == 'var':
+        if 'record' in x:
+            return x['record'] if x.get('ptr') else ''
+        return None if 'type' not in x else ''
+    if k == 'member':
+        if 'trecord' in x:
+            return x['trecord'] if x.get('tptr') else ''
+        return None if 'type' not in x else ''
+    if k == 'cast':
+        if x.get('record'):
+            return x['record'] if str(x.get('to', '')).rstrip().endswith('*') else ''
+        return _pointee_record(x.get('e')) if str(x.get('to', '')).replace(' ', '') in ('void*', 'constvoid*') else ''
+    if k == 'addr':
+        m = x.get('e')
+        while isinstance(m, dict) and m.get('k') == 'paren':
+            m = m.get('e')
+        if isinstance(m, dict) and m.get('k') == 'var' and 'record' in m:
+            return m['record'] if not m.get('ptr') else ''
+        if isinstance(m, dict) and m.get('k') == 'member' and 'trecord' in m:
+            return m['trecord'] if not m.get('tptr') else ''
+        return None
+    if k == 'container_of':
+        return x.get('record')
+    return None
+
+
+def _field_at(prog, record, offset, want, prefix=''):
+    """path 'f' / 'f.g' of the member of `record` that is an embedded object of record type `want` and starts at byte
+    `offset` (layout facts of the extractor), else None"""
+    rec = prog.records.get(record) or {}
+    if rec.get('union'):
+        return None
+    for fd in rec.get('fields') or ():
+        off = fd.get('offset')
+        if off is None or fd.get('ptr') or not fd.get('record') or 'bound' in fd:
+            continue
+        if off == offset and fd['record'] == want:
+            return prefix + fd['name']
+        size = fd.get('size') or 0
+        if off <= offset < off + size and fd['record'] != record:
+            sub = _field_at(prog, fd['record'], offset - off, want, prefix + fd['name'] + '.')
+            if sub:
+                return sub
+    return None
+
+
+def _byte_pointer(x):
+    """the pointer expression p when x is `(char *)p`, `(unsigned char *)p`, `(void *)p` (GNU byte arithmetic) or
+    `(uintptr_t)p` / `(unsigned long)p` / `(intptr_t)p` / `(size_t)p`: the address of *p counted in bytes"""
+    while isinstance(x, dict) and x.get('k') == 'paren':
+        x = x.get('e')
+    if not (isinstance(x, dict) and x.get('k') == 'cast'):
+        return None
+    to = ' '.join(str(x.get('to', '')).replace('const ', '').split())
+    if to in ('char *', 'unsigned char *', 'signed char *', 'void *', 'uint8_t *', 'uintptr_t', 'intptr_t', 'unsigned long',
+              'long', 'size_t', 'ptrdiff_t', 'unsigned long long', 'long long'):
+        p = x.get('e')
+        # (char *)(void *)p
+        q = _byte_pointer(p)
+        return q if q is not None else p
+    return None
+
+
+def recognise_containers(prog, g):
+    """`(R *)((char *)p - K)` with p a pointer to an M and K the byte offset of the embedded M member `m` of R (what
+    `offsetof(R, m)` evaluates to) is `iv_container_of(p, R, m)` written out: give it the node the loader gives the macro,
+    so that "the task this list node belongs to" does not depend on the macro being used.  Anything else (another
+    offset, a member of another type, a pointer whose type does not fit) is left as the arithmetic it is."""
+    n = [0]
+
+    def r(nd):
+        if nd.get('k') != 'cast' or not nd.get('record') or not str(nd.get('to', '')).rstrip().endswith('*'):
+            return None
+        if str(nd.get('to', '')).count('*') != 1:
+            return None
+        b = nd.get('e')
+        # value-preserving conversions of the difference: `(R *)(void *)(...)`, `(R *)(uintptr_t)(...)`
+        while isinstance(b, dict) and (b.get('k') == 'paren' or (b.get('k') == 'cast' and (
+                str(b.get('to', '')).rstrip().endswith('*') or _byte_pointer(b) is not None))):
+            b = b.get('e')
+        if not (isinstance(b, dict) and b.get('k') == 'bin' and b.get('op') in ('-', '+')):
+            return None
+        off = int_value(b.get('r'))
+        if off is None:
+            return None
+        off = off if b['op'] == '-' else -off
+        p = _byte_pointer(b.get('l'))
+        if p is None or off < 0:
+            return None
+        want = _pointee_record(p)
+        if not want:
+            return None
+        path = _field_at(prog, nd['record'], off, want)
+        if path is None:
+            return None
+        n[0] += 1
+        return {'k': 'container_of', 'e': subst(p, r), 'record': nd['record'], 'member': path, 'type': nd.get('to'), 'open_coded': True}
+
+    for blk in g.blocks.values():
+        for e in blk.events:
+            for key in ('rhs', 'args', 'fnexpr', 'value'):
+                if key in e and isinstance(e[key], (dict, list)):
+                    e[key] = subst(e[key], r)
+        if blk.term and isinstance(blk.term.get('cond'), dict):
+            blk.term = dict(blk.term, cond=subst(blk.term['cond'], r))
+    return n[0]
+
+
 def inline_root(prog, f, **kw):
     """the root with its helpers inlined, plus the local normalisations (addresses cached in pointer locals,
     written-out list primitives, out-parameters, results of inlined helpers read in a later block)"""
@@ -559,6 +675,7 @@ def inline_root(prog, f, **kw):
     rebind_call_results(g)
     resimplify(g)
     fold_constant_branches(g)
+    recognise_containers(prog, g)
     normalise_lists(g)
     return g
 
